@@ -13,8 +13,11 @@ structure WOptsOK (opt : WOpts) : Prop where
   /-- the (unmodelled) snappy compressor is inverted by the modelled decoder (on inputs that fit the
       32-bit length preamble of the format) -/
   lossless : opt.compression = 1 → ∀ b : Bytes, b.length < 2 ^ 32 → Snappy.decode (opt.compress b) = some b
-  /-- the filter policy has no false negatives -/
-  filterSound : ∀ ks k, k ∈ ks → opt.filter.keyMayMatch k (opt.filter.createFilter ks) = true
+  /-- the filter policy has no false negatives, on filters that can be part of a table file (shorter
+      than 4 GiB).  The unbounded form would exclude the crate's own bloom policy, whose bit count
+      wraps at 2^64 (`Consts.bloomBitsWidth`); see `wOptsOK_bloom`. -/
+  filterSound : ∀ ks k, k ∈ ks → (opt.filter.createFilter ks).length < 2 ^ 32 →
+    opt.filter.keyMayMatch k (opt.filter.createFilter ks) = true
   /-- the separator written for the last block is not below the last key -/
   lastSep : ∀ a, opt.cmp.cmp a (opt.cmp.sep a (opt.cmp.succ a)) ≠ .gt
   /-- separators are short (needed only to bound the uncompressed index block when compressing) -/
